@@ -139,7 +139,7 @@ def apply_directives(body, directives, unit):
         if key == "post":
             body.insert(toks[body.close].start, "\n" + val + "\n")
             continue
-        m = re.fullmatch(r"loop(\d+)\.(spec|via|viaval|iter|top|end|after|before)", key)
+        m = re.fullmatch(r"loop(\d+)\.(spec|via|viaval|viawhile|iter|top|end|after|before)", key)
         if m:
             if loops is None:
                 loops = body.loops()
@@ -158,7 +158,7 @@ def apply_directives(body, directives, unit):
                 body.insert(toks[lc].end, "\n" + val + "\n")
             elif what == "before":
                 body.insert(toks[kw].start, val + "\n")
-            elif what in ("via", "iter", "viaval"):
+            elif what in ("via", "iter", "viaval", "viawhile"):
                 if toks[kw].text != "for":
                     raise LostAnchor(f"{body.qual}: loop #{k} is not a for loop")
                 j = kw + 1
@@ -172,6 +172,11 @@ def apply_directives(body, directives, unit):
                     if expr.strip().endswith(".iter()"):
                         expr = "&" + expr.strip()[:-len(".iter()")]
                     new = f"let __v{k} = {val.strip()}({expr}); for {pat} in __it{k}: __v{k}.iter() "
+                elif what == "viawhile":
+                    # `for P in E {` -> `let __vK = F(E); let mut __iK: usize = 0; while __iK < __vK.len() <spec> { let P = __take(&__vK, __iK); __iK = __iK + 1;`
+                    # (Verus for-loops have no `continue`; a while loop over an index does). `__take` yields a ghost-equal copy of element i.
+                    new = f"let __v{k} = {val.strip()}({expr}); let mut __i{k}: usize = 0; while __i{k} < __v{k}.len() "
+                    body.insert(toks[lo].end, f" let {pat} = __take(&__v{k}, __i{k}); __i{k} = __i{k} + 1;", order=-10**11)
                 elif what == "viaval":
                     # by-value iteration (ranges): `for P in A..=B {` -> `let __vK = F(A, B); for __rK in __itK: __vK.iter() { let P = *__rK;`
                     ex = expr
@@ -216,11 +221,16 @@ def apply_directives(body, directives, unit):
             body.edit(toks[st].start, toks[bs].start, val + " ", "R7-closure", body.text(st, bs - 1) + "  =>  " + val)
             bind = ""
             if m.group(2) == "sigd":
-                # `sigd`: the contract names the single parameter `__p`; the closure's ORIGINAL parameter pattern
-                # is kept and bound from it at the start of the body: `let <pattern> = __p;`
+                # `sigd`: the contract names the parameters `__p` (one) or `__p0, __p1, ..` (several); the closure's ORIGINAL
+                # parameter patterns are kept and bound from them at the start of the body: `let <pattern> = __p;`
                 ps = st + 1 if toks[st].text == "move" else st
                 pat = body.src[toks[ps].end:toks[pe].start].strip() if toks[ps].text == "|" else ""
-                bind = f"let {pat} = __p; "
+                from extract import split_args
+                parts = split_args(toks, ps + 1, pe) if toks[ps].text == "|" else []
+                if len(parts) <= 1:
+                    bind = f"let {pat} = __p; "
+                else:
+                    bind = " ".join(f"let {body.src[pt[0].start:pt[-1].end]} = __p{k};" for k, pt in enumerate(parts)) + " "
             if toks[bs].text != "{":
                 body.insert(toks[bs].start, "{ " + bind, order=-10**12)
                 body.insert(toks[be].end, " }")
